@@ -45,8 +45,12 @@ func (e *Engine) buildQuery(o *Obligation, getValues []*Term) string {
 	for _, a := range ax {
 		p.Assert(a)
 	}
-	// literal facts
-	e.literalFacts(p, append(fs, ax...))
+	// facts about init-time memory, then literal facts
+	inits := e.initFactsFor(append(fs, ax...))
+	for _, a := range inits {
+		p.Assert(a)
+	}
+	e.literalFacts(p, append(append(fs, ax...), inits...))
 	body.WriteString("(set-option :produce-models true)\n(set-logic QF_UFBV)\n")
 	body.WriteString(p.String())
 	body.WriteString("(check-sat)\n")
